@@ -76,6 +76,10 @@ def _atoms_for(sel) -> list:
         Atom('float({0}) > 1.0', (sel,), cmp=True),
         Atom('int({0}) * 0.5 < 0.5', (sel,), cmp=True),
         Atom('1 < int({0})', (sel,), cmp=True),
+        # chained comparisons: Python reads a < b < c as (a < b) and (b < c)
+        Atom('0 < int({0}) < 2', (sel,), cmp=True),
+        Atom('2 <= int({0}) <= 2', (sel,)),
+        Atom('"0" < str({0}) != "2"', (sel,), cmp=True),
     ]
 
 
